@@ -342,6 +342,27 @@ def rule_ax_default(repo, col, funcs=()):
                     cond = True
                     break
                 cur = par
+            if not cond:
+                # an earlier axis-selected branch that always leaves
+                # (`if axis in (...): ...; return`) makes what follows the
+                # remaining-axis case
+                cur = n
+                while id(cur) in parents and not cond:
+                    par = parents[id(cur)]
+                    for fld in ('body', 'orelse', 'finalbody'):
+                        blk = getattr(par, fld, None)
+                        if isinstance(blk, list) and cur in blk:
+                            for st in blk[:blk.index(cur)]:
+                                if isinstance(st, ast.If) and any(
+                                        isinstance(x, ast.Name) and
+                                        x.id in der
+                                        for x in ast.walk(st.test)) and \
+                                        st.body and isinstance(
+                                            st.body[-1],
+                                            (ast.Return, ast.Raise,
+                                             ast.Continue, ast.Break)):
+                                    cond = True
+                    cur = par
             k += 1
             role = 'default-axis:%s.%s' % (r.id, n.func.attr)
             # both axes are read side by side: X.m() next to
